@@ -4,7 +4,7 @@ Refuting events: LatexNodes2Text(**options).latex_to_text(s) raises, returns a
 non-string, or exceeds the logical step budget (watchdog twice).
 
 Oracle: type check + step budget.  Workload: every macro and environment name of
-both default databases in 17 macro / 12 environment templates (bare, empty and
+both default databases in 25 macro / 19 environment templates (bare, empty and
 many arguments, optional, star, as single-token argument of another macro, in
 math, before closers, before comment/paragraph, empty body, alignment body), all
 short strings, soups, generated documents, each crossed with option tuples.
@@ -42,12 +42,16 @@ MACRO_TEMPLATES = [
     '\\%s', '\\%s{}', '\\%s{a}{b}{c}{d}{e}', '\\%s[o]{a}', '\\%s*{a}', '\\%s[]', '\\%s a b c',
     '\\textbf\\%s', '\\hat\\%s', '\\frac\\%s\\%s', '$\\%s{x}{y}$', '$x^\\%s$', '{\\%s}', '\\%s}', '\\%s%%c\n{a}',
     '\\%s\n\n{a}', '\\%s{\\%s{a}}{\\%s}',
+    '\\%s{$x$}{\\[y\\]}', '\\%s[{]}]{a\\par b}', '\\%s{a & b \\\\ c}', '\\begin{itemize}\\item \\%s\\end{itemize}',
+    '\\%s{\\begin{center}x\\end{center}}', '\\%s~--``x\'\'', '\\%s{}{}{}{}{}{}', '\\%s*[o][p]{a}{b}',
 ]
 ENV_TEMPLATES = [
     '\\begin{%s}\\end{%s}', '\\begin{%s}a\\end{%s}', '\\begin{%s}{c}a & b \\\\ c & d\\end{%s}',
     '\\begin{%s}[o]{a}{b}x\\end{%s}', '\\begin{%s}', '\\end{%s}', '\\begin{%s}{\\end{%s}', '$\\begin{%s}a\\end{%s}$',
     '\\begin{%s}\\item a\\item[b] c\\end{%s}', '\\begin{%s}\n\n\\end{%s}', '\\begin{%s}%%c\n\\end{%s}',
     '\\begin{%s}\\begin{%s}a&b\\end{%s}\\end{%s}',
+    '\\begin{%s}[o]\\end{%s}', '\\begin{%s}{}\\end{%s}', '\\begin{%s}{cc} & \\\\ & \\end{%s}', '\\begin{%s}*x\\end{%s}',
+    '\\begin{%s}$a$ \\[b\\] %%c\n\\end{%s}', '\\begin{%s}\\\\\\\\&&\\end{%s}', '\\textbf{\\begin{%s}a\\end{%s}}',
 ]
 
 
@@ -73,7 +77,7 @@ def plan(tier, seed):
 def floors(tier):
     return {'evaluations': 60000, 'distinct_nontrivial': 20000, 'conversions': 60000,
             'histkeys:macro_name': 1000, 'histkeys:env_name': 50, 'histkeys:option_pair': 110,
-            'histkeys:template': 29}
+            'histkeys:template': 44}
 
 
 def setup(rec):
